@@ -12,6 +12,8 @@ import (
 	"fmt"
 	"math/big"
 	"os"
+	"regexp"
+	"sort"
 	"strconv"
 )
 
@@ -156,6 +158,50 @@ func MulFits(a, b, bound int64) bool {
 	x := new(big.Int).Mul(big.NewInt(a), big.NewInt(b))
 	x.Abs(x)
 	return x.Cmp(big.NewInt(bound)) < 0
+}
+
+// MatchesPattern: regexp.MatchString with a constant pattern (symbolically: NFA over symbolic bytes).
+func MatchesPattern(s, pattern string) bool {
+	return regexp.MustCompile(pattern).MatchString(s)
+}
+
+// SchemaPattern returns the first "pattern" found in the published schema file data/schemas/<rel>.
+func SchemaPattern(rel string) string {
+	data, err := os.ReadFile("/repo/data/schemas/" + rel)
+	if err != nil {
+		return "<unreadable " + rel + ">"
+	}
+	var doc interface{}
+	if json.Unmarshal(data, &doc) != nil {
+		return "<bad json>"
+	}
+	return findPattern(doc)
+}
+
+func findPattern(v interface{}) string {
+	switch x := v.(type) {
+	case map[string]interface{}:
+		if p, ok := x["pattern"].(string); ok {
+			return p
+		}
+		keys := make([]string, 0, len(x))
+		for k := range x {
+			keys = append(keys, k)
+		}
+		sort.Strings(keys)
+		for _, k := range keys {
+			if p := findPattern(x[k]); p != "" {
+				return p
+			}
+		}
+	case []interface{}:
+		for _, e := range x {
+			if p := findPattern(e); p != "" {
+				return p
+			}
+		}
+	}
+	return ""
 }
 
 // DivFloor is floor(a/b) for b > 0 over mathematical integers.
